@@ -63,7 +63,7 @@ def momentum_options(c):
 
 
 def lr_schedule(t):
-  return 0.125 / (1.0 + t.astype(jnp.float32))
+  return 0.125 / (1.0 + jnp.asarray(t, jnp.float32))
 
 
 def make_tearfree(c, lr_arg=None):
